@@ -2,6 +2,7 @@ SPECIFICATION Spec
 CONSTANT Bug = "none"
 CONSTANT MaxDefects = 1
 CONSTANT MaxValidations = 1
+CONSTANT AllowForever = FALSE
 CONSTANT MaxPending = 1
 INVARIANT NeverProviderErr
 CHECK_DEADLOCK FALSE
